@@ -34,7 +34,7 @@ MANDATORY = ["stack", "concatenate", "secondary:permuted", "secondary:differs", 
 
 
 def budget(tier):
-    return {"quick": dict(examples=1000, shards=1), "thorough": dict(examples=15000, shards=16)}[tier]
+    return {"quick": dict(examples=3000, shards=1), "thorough": dict(examples=15000, shards=16)}[tier]
 
 
 @st.composite
